@@ -12,6 +12,7 @@ CONSTANTS
   SaNs = {}
   MonoNs = {6}
   PermAllN = 0
+  LawFams = {}
 INVARIANT InvDom
 INVARIANT InvImplBasis
 INVARIANT InvRotatable
